@@ -29,3 +29,93 @@ void h_watford(void)
   VERIF_COVER(r, "watford");
   VERIF_COVER(!r && g_rb_calls == 0, "file in sector 2");
 }
+
+
+/* ---- probe order (C13) -------------------------------------------------------------------------------------------- */
+enum { Format_HDFS, Format_DFS, Format_WDFS, Format_OpusDDOS };          /* dfs_format.h: enum class Format */
+struct opt_format_count { _Bool has; int fmt; sector_count_type count; };
+/* Every probe is called through a wrapper that records that it was called and what it answered -- at the level of
+   probe_format (PFp) or, while smells_like_acorn_dfs runs, at its level (PFa).  The probes themselves are replaced by
+   their contracts (hdfs, watford, acorn) or are unconstrained models (the Opus DDOS volume table and catalogue validity
+   are outside the verified set), so the postconditions below speak about the recorded answers. */
+static struct { _Bool hdfs_called, hdfs, watford_called, watford, opus_called, opus, acorn_called, acorn; sector_count_type opus_sectors; SectorBuffer sec1; } PFp;
+static struct { _Bool watford_called, watford, opus_called, opus, valid_called, valid; } PFa;
+static _Bool PF_in_acorn;
+static _Bool PF_hdfs(const SectorBuffer *s) { PFp.hdfs_called = 1; PFp.sec1 = *s; PFp.hdfs = smells_like_hdfs(s); return PFp.hdfs; }   /* sector 1 as read */
+static _Bool PF_watford(struct DataAccess *m, const SectorBuffer *s)
+{
+  _Bool r = smells_like_watford(m, s);
+  if (PF_in_acorn) { PFa.watford_called = 1; PFa.watford = r; } else { PFp.watford_called = 1; PFp.watford = r; }
+  return r;
+}
+static _Bool PF_opus(struct DataAccess *m, sector_count_type *n)
+{
+  _Bool r = nondet_bool(); sector_count_type k = nondet_uint();
+  (void)m;
+  if (r) *n = k;
+  if (PF_in_acorn) { PFa.opus_called = 1; PFa.opus = r; } else { PFp.opus_called = 1; PFp.opus = r; PFp.opus_sectors = k; }
+  return r;
+}
+static _Bool PF_valid_catalog(struct DataAccess *m, unsigned long where)
+{ (void)m; __CPROVER_assert(where == 0, "C13: the Acorn catalogue is looked for at sector 0"); PFa.valid_called = 1; PFa.valid = nondet_bool(); return PFa.valid; }
+#include "smells_like_acorn_dfs.inc"
+static _Bool PF_acorn(struct DataAccess *m, const SectorBuffer *s)
+{
+  _Bool r;
+  PF_in_acorn = 1; PFa.watford_called = 0; PFa.opus_called = 0; PFa.valid_called = 0;
+  r = smells_like_acorn_dfs(m, s);
+  PF_in_acorn = 0; PFp.acorn_called = 1; PFp.acorn = r;
+  return r;
+}
+#include "probe_format.inc"
+
+/* Acorn DFS only if: not the HDFS flag bit, not Watford, no Opus DDOS volume table, and a valid catalogue at sector 0 */
+static bool smells_like_acorn_dfs(struct DataAccess *media, const SectorBuffer *sec1)
+__CPROVER_requires(SB_FRESH(sec1) && media == &h_media && PF_in_acorn && !PFa.watford_called && !PFa.opus_called && !PFa.valid_called)
+__CPROVER_assigns(PFa, g_rb_calls, g_rb_last_lba, g_rb_last_obj, g_rb_last_buf, g_rb_last_ok, g_allof_result, g_witness_pos)
+__CPROVER_ensures(__CPROVER_return_value ==
+                  ((sec1->d[6] & 8) == 0 && PFa.watford_called && !PFa.watford && PFa.opus_called && !PFa.opus && PFa.valid_called && PFa.valid))
+/* nothing more is asked once the answer is known */
+__CPROVER_ensures(((sec1->d[6] & 8) != 0) ==> (!PFa.watford_called && !PFa.opus_called && !PFa.valid_called))
+__CPROVER_ensures((PFa.watford_called && PFa.watford) ==> (!PFa.opus_called && !PFa.valid_called));
+
+static struct opt_format_count probe_format(struct DataAccess *access)
+__CPROVER_requires(access == &h_media && !PF_in_acorn && !PFp.hdfs_called && !PFp.watford_called && !PFp.opus_called && !PFp.acorn_called && g_diag < 1000)
+__CPROVER_assigns(PFp, PFa, PF_in_acorn, g_diag, g_rb_calls, g_rb_last_lba, g_rb_last_obj, g_rb_last_buf, g_rb_last_ok, g_allof_result, g_witness_pos)
+/* C13: HDFS by its flag bit, else Watford by its marker, else Opus DDOS by its volume table, else Acorn DFS -- in that
+   order, with the sector count that variant defines; otherwise no format and a diagnostic */
+__CPROVER_ensures(__CPROVER_return_value.has ==> PFp.hdfs_called)
+__CPROVER_ensures((PFp.hdfs_called && PFp.hdfs) ==> (__CPROVER_return_value.has && __CPROVER_return_value.fmt == Format_HDFS && !PFp.watford_called && !PFp.opus_called && !PFp.acorn_called))
+__CPROVER_ensures((PFp.hdfs_called && !PFp.hdfs) ==> PFp.watford_called)
+__CPROVER_ensures((PFp.watford_called && PFp.watford) ==> (__CPROVER_return_value.has && __CPROVER_return_value.fmt == Format_WDFS && !PFp.opus_called && !PFp.acorn_called))
+__CPROVER_ensures((PFp.watford_called && !PFp.watford) ==> PFp.opus_called)
+__CPROVER_ensures((PFp.opus_called && PFp.opus) ==> (__CPROVER_return_value.has && __CPROVER_return_value.fmt == Format_OpusDDOS && __CPROVER_return_value.count == PFp.opus_sectors && !PFp.acorn_called))
+__CPROVER_ensures((PFp.opus_called && !PFp.opus) ==> PFp.acorn_called)
+__CPROVER_ensures((PFp.acorn_called && PFp.acorn) ==> (__CPROVER_return_value.has && __CPROVER_return_value.fmt == Format_DFS))
+__CPROVER_ensures((PFp.acorn_called && !PFp.acorn) ==> (!__CPROVER_return_value.has && g_diag > __CPROVER_old(g_diag)))
+__CPROVER_ensures(!PFp.hdfs_called ==> (!__CPROVER_return_value.has && g_diag > __CPROVER_old(g_diag)))
+/* the sector count each variant defines, from sector 1 as read: 10 bits + bit 2 of byte 6 (Acorn/Watford: 11 bits);
+   HDFS: 10 bits per side, doubled when bit 2 of byte 6 says two sides */
+#define PF_S1 (&PFp.sec1)
+__CPROVER_ensures((__CPROVER_return_value.has && (__CPROVER_return_value.fmt == Format_DFS || __CPROVER_return_value.fmt == Format_WDFS)) ==>
+                  __CPROVER_return_value.count == ((unsigned)PF_S1->d[7] | (((unsigned)PF_S1->d[6] & 7u) << 8)))
+__CPROVER_ensures((__CPROVER_return_value.has && __CPROVER_return_value.fmt == Format_HDFS) ==>
+                  __CPROVER_return_value.count == (((unsigned)PF_S1->d[7] | (((unsigned)PF_S1->d[6] & 3u) << 8)) << ((PF_S1->d[6] & 4) ? 1 : 0)));
+
+void h_acorn(void)
+{
+  const SectorBuffer *b;
+  g_k = nondet_size_t(); g_e = nondet_uint(); g_rb_calls = nondet_ulong() & 0xFFFF;
+  PF_in_acorn = 1; PFa.watford_called = 0; PFa.opus_called = 0; PFa.valid_called = 0;
+  smells_like_acorn_dfs(&h_media, b);
+}
+void h_probe_format(void)
+{
+  struct opt_format_count r;
+  g_k = nondet_size_t(); g_e = nondet_uint(); g_rb_calls = nondet_ulong() & 0xFFFF; g_diag = 0;
+  PF_in_acorn = 0; PFp.hdfs_called = 0; PFp.watford_called = 0; PFp.opus_called = 0; PFp.acorn_called = 0;
+  r = probe_format(&h_media);
+  VERIF_COVER(r.has && r.fmt == Format_WDFS, "Watford");
+  VERIF_COVER(r.has && r.fmt == Format_DFS, "Acorn");
+  VERIF_COVER(!r.has, "no format");
+}
